@@ -356,6 +356,10 @@ def run(tier, seed, factor=1):
                 res.dist["engine theorems' hypothesis WFU holds for the universe" if " wfu=1 " in l else
                          "universe outside WFU (engine theorems do not apply; correspondence only)"] += 1
                 l = l.replace(" wfu=1 ", " ").replace(" wfu=0 ", " ")
+            elif l.startswith("wfu="):
+                res.dist["engine theorems' hypothesis WFU holds for the universe" if l.startswith("wfu=1 ") else
+                         "universe outside WFU (engine theorems do not apply; correspondence only)"] += 1
+                l = l[6:]
             if l != o["expect"]:
                 mo, _, me = l.partition(" | ")
                 po, _, pe = o["expect"].partition(" | ")
